@@ -34,134 +34,195 @@ def run(R, ctx):
 
 
 # ------------------------------------------------------------------------------------------------ R02.1
+NEXT = r"as std::iter::(DoubleEnded)?Iterator>::next(_back)?$"
+
+
 def matcher(R, ctx):
+    """The matcher as a first-match decision list.  Atoms are classified by what they examine (list position, name option,
+    prefix test, level comparison), whatever the syntactic form (for/match, iter().find(), any()); atoms outside the
+    documented decision are don't-cares: the result must equal the documented one whatever their value."""
     f = ctx.f
     b = ctx.body(r'^log_specification::LogSpecification::enabled$')
-    NEXT = r"slice::Iter<.*> as std::iter::Iterator>::next$"
     I = FDI(f, effects=[NEXT], loop_k=ctx.k(2, 4))
-    rows = I.run(b.path)
+    rows = I.run(b.path, arg_names=['self', 'level', 'writing_module'])
     problems = []
     shapes = set()
+    skipped = 0
     for r in rows:
         if r.undecided:
             R.bad('R02.1', f"{b.path}|matcher", f"UNDECIDED: {r.undecided}", where=b.loc())
             return
-        d = list(r.cond)
-        exp = None
-        shape = []
-        ok = True
-        k = 0
-        while d:
-            a, v = d.pop(0)
+        nexts = [e for e in r.effects if re.search(NEXT, e[0])]
+        for e in nexts:
+            src = e[2]['x'][0]
+            if 'module_filters' not in T.fields_in(src) or 'self' not in T.inputs_in(src) or re.search(r'next_back|::rev\b|Rev<', e[0] + repr(src)):
+                problems.append("the matcher does not iterate self.module_filters forward, in vector order")
+        pos_of = {e[2]['n']: i for i, e in enumerate(nexts)}
+        el = {}
+        foreign = []
+
+        def elem_of(x):
+            ks = T.eff_indices(x, NEXT) & set(pos_of)
+            return pos_of[next(iter(ks))] if len(ks) == 1 else None
+        for a, v in r.cond:
             info = r.atom_info.get(a, {})
-            if not (a.startswith('variant(') and re.search(NEXT.replace('$', ''), a) and a.endswith(f"next#{k + 1})")):
-                problems.append(f"unexpected condition {a[:120]} = {v} (documented: iterate the filters in order)")
-                ok = False
-                break
-            k += 1
-            # iteration source must be self.module_filters, forward
-            if 'module_filters' not in repr(info.get('of')) or re.search(r'::rev|next_back|Rev<', repr(info.get('of'))):
-                problems.append("the matcher does not iterate self.module_filters forward")
-                ok = False
-                break
-            if v == 'None':
-                exp = False
+            kind = info.get('kind')
+            x = info.get('x') if kind != 'variant' else info.get('of')
+            if kind == 'variant':
+                xs = T.strip_refs(x)
+                if isinstance(xs, tuple) and xs[0] == 'eff' and xs[2] in pos_of:
+                    el.setdefault(pos_of[xs[2]], {})['present'] = (v == 'Some')
+                    continue
+                k = elem_of(x)
+                xs = T.strip_refs(x)
+                if k is not None and isinstance(xs, tuple) and xs[0] == 'call' and re.search(r'str>?::strip_prefix$', xs[1]) and len(xs[2]) >= 2 and \
+                        T.is_input(xs[2][0], 'writing_module') and 'module_name' in T.fields_in(xs[2][1]):
+                    el.setdefault(k, {})['prefix'] = (v == 'Some')
+                    continue
+                if k is not None and isinstance(xs, tuple) and xs[0] == 'field' and xs[2] == 'module_name':
+                    el.setdefault(k, {})['named'] = (v == 'Some')
+                    continue
+            elif kind == 'ord':
+                xa, xb = info.get('a'), info.get('b')
+                for (p_, q_, fl) in ((xa, xb, False), (xb, xa, True)):
+                    k = elem_of(q_)
+                    if T.is_input(p_, 'level') and k is not None and 'level_filter' in T.fields_in(q_):
+                        rel = T.flip(v) if fl else v
+                        el.setdefault(k, {})['le'] = T.rel_to_bool(rel, 'le')
+                        break
+                else:
+                    foreign.append((a, v, (xa, xb)))
+                continue
+            elif isinstance(x, tuple) and x[0] == 'call' and re.search(r'str>?::starts_with$', x[1]) and len(x[2]) >= 2:
+                k = elem_of(x[2][1])
+                if T.is_input(x[2][0], 'writing_module') and k is not None and 'module_name' in T.fields_in(x[2][1]):
+                    el.setdefault(k, {})['prefix'] = bool(v)
+                    continue
+            if isinstance(x, tuple) and 'writing_module' in T.inputs_in(x) and 'module_name' in T.fields_in(x) and elem_of(x) is not None:
+                problems.append(f"the test relating the writing module to a filter's name is not `writing_module.starts_with(name)`: {a[:160]}")
+            foreign.append((a, v, x))
+        # documented decision
+        exp, shape, determined = None, [], False
+        for i in range(len(nexts) + 1):
+            e = el.get(i, {})
+            if e.get('present') is False:
+                exp, determined = False, True
                 shape.append('end')
                 break
-            el = f"*{a[len('variant('):-1]}.0"
-            if not d:
-                ok = False
+            if e.get('present') is None or e.get('named') is None:
                 break
-            a2, v2 = d.pop(0)
-            if a2 != f"variant({el}.module_name)":
-                problems.append(f"element {k}: the module name option is not examined first ({a2[:100]})")
-                ok = False
-                break
-            decides = False
-            if v2 == 'None':
-                decides = True
+            if e['named'] is False:
+                exp, determined = e.get('le'), e.get('le') is not None
                 shape.append('default')
-            else:
-                if not d:
-                    ok = False
-                    break
-                a3, v3 = d.pop(0)
-                x = r.atom_info.get(a3, {}).get('x')
-                good = isinstance(x, tuple) and x[0] == 'call' and x[1] == 'core::str::<impl str>::starts_with' and \
-                    T.strip_refs(x[2][0]) == ('in', 'writing_module') and \
-                    "'module_name'" in repr(x[2][1]) and f"next\", {k}" in repr(x[2][1]).replace("next', ", 'next", ')
-                if not good:
-                    problems.append(f"element {k}: the prefix test is not `writing_module.starts_with(<that filter's name>)` but {a3[:150]}")
-                    ok = False
-                    break
-                decides = bool(v3)
-                shape.append('match' if decides else 'nomatch')
-            if decides:
-                if not d:
-                    ok = False
-                    break
-                a4, v4 = d.pop(0)
-                info4 = r.atom_info.get(a4, {})
-                lvl_ok = info4.get('kind') == 'ord' and {repr(T.strip_refs(info4['a'])), repr(T.strip_refs(info4['b']))} >= {repr(('in', 'level'))}
-                other = info4.get('b') if T.strip_refs(info4.get('a')) == ('in', 'level') else info4.get('a')
-                flt_ok = other is not None and "'level_filter'" in repr(other) and f"next\", {k}" in repr(other).replace("next', ", 'next", ')
-                if not (lvl_ok and flt_ok):
-                    problems.append(f"element {k}: the deciding comparison is not between the level and that filter's level_filter: {a4[:150]}")
-                    ok = False
-                    break
-                rel = v4 if T.strip_refs(info4['a']) == ('in', 'level') else T.flip(v4)
-                exp = T.rel_to_bool(rel, 'le')
-                if d:
-                    problems.append(f"conditions examined after the deciding filter: {d[0][0][:100]}")
-                    ok = False
                 break
-        if not ok:
-            continue
+            if e.get('prefix') is None:
+                break
+            if e['prefix']:
+                exp, determined = e.get('le'), e.get('le') is not None
+                shape.append('match')
+                break
+            shape.append('nomatch')
         got = r.result.v if isinstance(r.result, Const) else repr(r.result)
-        if exp is None or got != exp:
-            problems.append(f"filters {shape}: matcher returns {got}, documented {exp} (first matching filter decides with level <= filter level; none -> false)")
+        if not determined:
+            # the code decided without examining what the documented decision depends on.  If nothing it examined is
+            # related to the filter list, the decision is wrong for some list; otherwise the row is not comparable.
+            related = [x for (_, _, x) in foreign if 'module_filters' in T.fields_in(x) or T.eff_indices(x, NEXT)]
+            if related:
+                skipped += 1
+                continue
+            problems.append(f"filters {shape + ['...']}: the matcher returns {got} without examining "
+                            f"{'the level against the deciding filter' if shape and shape[-1] in ('default', 'match') else 'the (next) filter'}"
+                            + (f" (it examines {foreign[0][0][:100]} = {foreign[0][1]})" if foreign else ''))
+            continue
+        if got != exp:
+            problems.append(f"filters {shape}: matcher returns {got}, documented {exp} (first matching filter decides with level <= filter level; none -> false)"
+                            + (f" [when {foreign[0][0][:80]} = {foreign[0][1]}]" if foreign else ''))
             continue
         shapes.add(tuple(shape))
     need = {('end',), ('default',), ('match',), ('nomatch', 'end'), ('nomatch', 'match'), ('nomatch', 'default')}
-    if not problems and need - shapes:
-        problems.append(f"filter-list shapes missing from the table: {sorted(need - shapes)}")
     if problems:
         R.bad('R02.1', f"{b.path}|matcher", f"matcher: {problems[0]}", where=b.loc(), witness=problems[:4])
+    elif need - shapes:
+        raise CheckError(f"R02.1: the matcher's form is not recognised: filter-list shapes {sorted(need - shapes)} not found among {len(rows)} rows ({skipped} not comparable)")
     else:
-        R.ok('R02.1', f"{b.path}|matcher", f"{len(rows)} rows over {len(shapes)} filter-list shapes agree ({I.cut_rows} longer lists cut)",
+        R.ok('R02.1', f"{b.path}|matcher", f"{len(rows)} rows over {len(shapes)} filter-list shapes agree ({I.cut_rows} longer lists cut, {skipped} rows not comparable)",
              sample={'rows': len(rows), 'shapes': sorted(map(str, shapes))})
 
 
 # ------------------------------------------------------------------------------------------------ R02.2
+STABLE_SORTS = r'slice::<impl \[T\]>::(sort|sort_by|sort_by_key|sort_by_cached_key)$'
+
+
+def _name_len(x, params):
+    """x = length of the module name of one of the comparator's parameters (0 for the default entry)?  -> ('len', param) | ('const', n) | None"""
+    x = T.strip_refs(x)
+    if isinstance(x, tuple) and x[0] == 'const' and isinstance(x[1], int):
+        return ('const', x[1])
+    if isinstance(x, tuple) and x[0] == 'call' and re.search(r'(String|str>?)::len$', x[1].replace('fn:', '')) and len(x[2]) == 1:
+        arg = x[2][0]
+        ins = T.inputs_in(arg) & set(params)
+        if len(ins) == 1 and 'module_name' in T.fields_in(arg):
+            return ('len', next(iter(ins)))
+    return None
+
+
 def sorting(R, ctx):
     f, cg = ctx.f, ctx.cg
     b = ctx.body(r'as log_specification::LevelSort>::level_sort$')
-    sorts = [(bb, callee_name(t)) for bb, t in b.calls() if re.search(r'::sort\w*$', callee_name(t))]
-    stable = len(sorts) == 1 and re.search(r'slice::<impl \[T\]>::sort_by$', sorts[0][1]) is not None
-    R.check('R02.2', 'level_sort|stable', stable, "the stable slice::sort_by",
-            f"level_sort uses {[s[1] for s in sorts]} instead of the stable slice::sort_by: filters of equal name length (e.g. the same module twice, or the builder's map order) "
+    sorts = [(bb, callee_name(t), t) for bb, t in b.calls() if re.search(r'::sort\w*$', callee_name(t))]
+    stable = len(sorts) == 1 and re.search(STABLE_SORTS, sorts[0][1]) is not None
+    R.check('R02.2', 'level_sort|stable', stable, "one stable slice sort",
+            f"level_sort uses {[s[1] for s in sorts]} instead of a stable slice sort: filters of equal name length (e.g. the same module twice, or the builder's map order) "
             "lose their relative order", where=b.loc())
-    clo = [x for x in f.fn_bodies() if x.kind == 'Closure' and x.path.startswith(b.path + '::')]
+    clo = [x for x in f.fn_bodies() if x.kind == 'Closure' and x.path.startswith(b.path + '::') and x.path.count('{closure') == 1]
     okc = False
-    why = 'comparator closure not found'
-    if len(clo) == 1:
-        rows = FDI(f).run(clo[0].path)
+    why = 'comparator / key closure not found'
+    if len(clo) == 1 and len(sorts) == 1:
+        by_key = bool(re.search(r'sort_by(_cached)?_key$', sorts[0][1]))
+        names = ['env', 'a'] if by_key else ['env', 'a', 'b']
+        rows = FDI(f).run(clo[0].path, arg_names=names)
         okc = True
+        seen = set()
         for r in rows:
-            x = getattr(r.result, 'x', None)
-            if r.undecided or not (isinstance(x, tuple) and x[0] == 'call' and re.search(r'Ord for usize>::cmp$|<usize as std::cmp::Ord>::cmp$', x[1])):
-                okc, why = False, f"comparator is not usize::cmp of the two name lengths ({r.result!r})"
+            if r.undecided:
+                R.bad('R02.2', 'level_sort|descending-by-length', f"UNDECIDED: {r.undecided}", where=b.loc())
+                return
+            named = {}
+            for a_, v_ in r.cond:
+                info = r.atom_info.get(a_, {})
+                if info.get('kind') == 'variant' and 'module_name' in T.fields_in(info['of']):
+                    ins = T.inputs_in(info['of']) & {'a', 'b'}
+                    if len(ins) == 1:
+                        named[next(iter(ins))] = (v_ == 'Some')
+
+            def want(p_):
+                return ('len', p_) if named.get(p_) else ('const', 0)
+            res = r.result
+            x = I_x(res)
+            if by_key:
+                # key must order longer names first: Reverse(len)
+                if isinstance(res, Agg) and res.adt.endswith('cmp::Reverse') and res.fields and _name_len(I_x(res.fields[0]), names) == want('a'):
+                    seen.add(named.get('a'))
+                    continue
+                okc, why = False, f"the sort key is not Reverse(length of the name, 0 for the default entry): {res!r}"[:300]
                 break
-            l, rr = repr(x[2][0]), repr(x[2][1])
-            an, bn = r.get('variant(a.module_name)'), r.get('variant(b.module_name)')
-            lok = ("'b.module_name'" in l and 'String::len' in l) if bn == 'Some' else l == repr(('ref', ('const', 0)))
-            rok = ("'a.module_name'" in rr and 'String::len' in rr) if an == 'Some' else rr == repr(('ref', ('const', 0)))
-            if not (lok and rok):
-                okc, why = False, f"comparator is not cmp(len(b), len(a)) with length 0 for the default entry: cmp({l[:80]}, {rr[:80]})"
+            rev = False
+            if isinstance(x, tuple) and x[0] == 'call' and re.search(r'Ordering::reverse$', x[1]) and x[2]:
+                rev, x = True, T.strip_refs(x[2][0])
+            if not (isinstance(x, tuple) and x[0] == 'call' and re.search(r'(Ord for usize>|<usize as std::cmp::Ord>|Ord)::cmp$', x[1]) and len(x[2]) == 2):
+                okc, why = False, f"comparator is not usize::cmp of the two name lengths ({res!r})"[:300]
                 break
-        if okc and len(rows) != 4:
-            okc, why = False, f"{len(rows)} comparator rows instead of 4"
-    R.check('R02.2', 'level_sort|descending-by-length', okc, "comparator = cmp(len(b.name or 0), len(a.name or 0))",
+            l, rr = _name_len(x[2][0], names), _name_len(x[2][1], names)
+            first, second = ('a', 'b') if rev else ('b', 'a')
+            if not (l == want(first) and rr == want(second)):
+                okc, why = False, f"comparator is not cmp(len(b), len(a)) with length 0 for the default entry: {'reverse of ' if rev else ''}cmp({l}, {rr}) for named={named}"
+                break
+            seen.add((named.get('a'), named.get('b')))
+        if okc and len(seen) != (2 if by_key else 4):
+            raise CheckError(f"R02.2: comparator form not recognised: cases {sorted(map(str, seen))}")
+    elif len(sorts) == 1 and sorts[0][1].endswith('::sort'):
+        why = 'plain sort() orders by the derived Ord of ModuleFilter, not by name length'
+    R.check('R02.2', 'level_sort|descending-by-length', okc, "longest name first, default entry (length 0) last",
             f"level_sort's order is not `longest name first, default last`: {why}", where=b.loc())
     # every value stored into module_filters
     def src_ok(body, op):
@@ -268,52 +329,100 @@ def global_gate(R, ctx):
     # the fold over the writers
     fold = None
     for x in f.fn_bodies():
-        if x.path.startswith('logger_handle::WritersHandle::') and any(callee_name(t).endswith('LogWriter::max_log_level') for bb, t in x.calls()):
+        if x.path.startswith('logger_handle::WritersHandle::') and x.kind != 'Closure' and \
+                any(callee_name(t).endswith('LogWriter::max_log_level') for (_, _, t) in calls_with_closures(f, x)):
             fold = x
     if fold is None:
         R.bad('R02.4', 'writers-fold', "no function of WritersHandle folds the writers' max_log_level() into the global level: a writer accepting more than the specification would never see its records", where=None)
         return
-    maxs = [(bb, callee_name(t)) for bb, t in fold.calls() if re.search(r'^std::cmp::(max|min)$|::(max|min)$', callee_name(t)) and 'max_log_level' not in callee_name(t)]
-    is_max = len(maxs) == 1 and maxs[0][1] == 'std::cmp::max'
-    # loop over values() without early exit: the only way out of the loop is the None edge of next
-    nexts = [bb for bb, t in fold.calls() if re.search(r'as std::iter::Iterator>::next$', callee_name(t))]
-    vals = [bb for bb, t in fold.calls() if re.search(r'HashMap::<K, V, S(, A)?>::values$', callee_name(t))]
-    loop_ok = len(nexts) == 1 and len(vals) == 1
-    if loop_ok:
-        nb = fold.blocks[nexts[0]]['term']['target']
-        tt = fold.blocks[nb]['term']
-        loop_ok = tt['k'] == 'switch'
-        if loop_ok:
-            some = C.switch_edge_blocks(fold, nb, 1)
-            body_blocks = C.reachable_from(fold, some, avoid=[nexts[0]])
-            exits = [x for x in body_blocks if fold.blocks[x]['term']['k'] == 'return']
-            loop_ok = not exits and nexts[0] in C.reachable_after(fold, some)
-            mx_in = all(bb in body_blocks for bb, n_ in maxs)
-            loop_ok = loop_ok and mx_in
-    pf = ctx.ip.prov(fold.path)
-    acc_ok = False
-    if is_max:
-        t = fold.blocks[maxs[0][0]]['term']
-        r0 = pf.op_roots(t['args'][0]) | pf.op_roots(t['args'][1])
-        acc_ok = any(r_[0] == 'param' and r_[1] == 2 for r_ in r0) and any(r_[0] == 'call' and r_[1].endswith('max_log_level') for r_ in r0)
-    R.check('R02.4', f"{fold.path}|max-over-all-writers", is_max and loop_ok and acc_ok,
-            "fold with std::cmp::max over every element of other_writers.values()",
-            f"the global level is not max(spec level, every writer's max_log_level()): combinator {[m[1] for m in maxs]}, loop over all writers without early exit: {loop_ok}, "
-            f"accumulates the given level: {acc_ok}", where=fold.loc())
+    MLL = r'LogWriter::max_log_level$'
+    ok, why, n = max_over_all(ctx, fold, ['self', 'level'], [MLL],
+                              base=lambda x: T.is_input(x, 'level'),
+                              elem=lambda x, k: T.eff_indices(x, MLL) and len(T.eff_indices(x, NEXT)) <= 1,
+                              elem_of=lambda x, r: _writer_elem(x, r, MLL), source='other_writers')
+    R.check('R02.4', f"{fold.path}|max-over-all-writers", ok, f"max(given level, max_log_level() of every writer) on {n} rows",
+            f"the global level is not max(spec level, every writer's max_log_level()): {why}", where=fold.loc())
     # used on build and on change
     for user in ('logger_handle::WritersHandle::reconfigure', 'logger_handle::WritersHandle::set_new_spec'):
         ub = f.bodies.get(user)
         okc = ub is not None and fold.path in cg.reachable([user], spawn=False)
         R.check('R02.4', f"{user}|uses-fold", okc, "uses the fold over the writers", f"{user} sets the global level without the writers' levels", where=ub.loc() if ub else None)
     mb = ctx.body(r'^log_specification::LogSpecification::max_level$')
-    names = [callee_name(t) for bb, t in mb.calls()]
-    okm = any(re.search(r'Iterator>?::max$', n_) for n_ in names) and not any(re.search(r'Iterator>?::min$', n_) for n_ in names)
-    off = any('Off' in s_ for s_ in op_str_all(mb))
-    clo = [x for x in f.fn_bodies() if x.kind == 'Closure' and x.path.startswith(mb.path + '::')]
-    fld = any('level_filter' in place_fields(s['rv']['op']['place']) for x in clo for blk in x.blocks for s in blk['stmts']
-              if s['k'] == 'assign' and s['rv']['k'] == 'use' and s['rv']['op']['k'] in ('copy', 'move'))
-    R.check('R02.4', f"{mb.path}", okm and off and fld, "max over the level_filter fields, Off for the empty list",
-            "LogSpecification::max_level is not the maximum of the filters' levels (Off when empty)", where=mb.loc())
+    ok, why, n = max_over_all(ctx, mb, ['self'], [],
+                              base=lambda x: x == ('agg', 'log::LevelFilter', 'Off', ()),
+                              elem=lambda x, k: 'level_filter' in T.fields_in(x),
+                              elem_of=lambda x, r: next(iter(T.eff_indices(x, NEXT)), None), source='module_filters', need_base=True)
+    R.check('R02.4', f"{mb.path}", ok, f"max over the level_filter fields, Off for the empty list ({n} rows)",
+            f"LogSpecification::max_level is not the maximum of the filters' levels (Off when empty): {why}", where=mb.loc())
+
+
+def _writer_elem(x, r, MLL):
+    """which list element does the max_log_level() result x belong to: the next#k its receiver derives from"""
+    ks = T.eff_indices(x, MLL)
+    if len(ks) != 1:
+        return None
+    e = r.effects[next(iter(ks)) - 1]
+    nx = set()
+    for a in e[2]['x']:
+        nx |= T.eff_indices(a, NEXT)
+    return next(iter(nx)) if len(nx) == 1 else None
+
+
+def max_over_all(ctx, body, arg_names, effects, base, elem, elem_of, source, need_base=False):
+    """the function's result is the maximum of a base value and one value per element of a collection, whatever the form
+    (for loop with std::cmp::max, fold, map().max().unwrap_or(base)); leaves equal to the base constant are neutral."""
+    I = FDI(ctx.f, effects=[NEXT] + list(effects), loop_k=2, no_inline=effects)
+    rows = I.run(body.path, arg_names=arg_names)
+    n = 0
+    lens = set()
+    for r in rows:
+        if r.undecided:
+            raise CheckError(f"R02.4 {body.path}: UNDECIDED {r.undecided}")
+        nexts = [e for e in r.effects if re.search(NEXT, e[0])]
+        for e in nexts:
+            if source not in T.fields_in(e[2]['x'][0]):
+                return False, f"iterates {r.long(e[1][0])[:80]} instead of self.{source}", n
+        present = []
+        for a, v in r.cond:
+            info = r.atom_info.get(a, {})
+            if info.get('kind') == 'variant':
+                xs = T.strip_refs(info['of'])
+                if isinstance(xs, tuple) and xs[0] == 'eff' and re.search(NEXT, xs[1]):
+                    if v == 'Some':
+                        present.append(xs[2])
+                    continue
+            return False, f"the result depends on a condition besides the length of the collection: {a[:100]} = {v}", n
+        leaves = T.max_leaves(I_x(r.result))
+        got_base = [l for l in leaves if base(T.strip_refs(l))]
+        rest = [l for l in leaves if not base(T.strip_refs(l))]
+        covered = set()
+        for l in rest:
+            k = elem_of(l, r) if elem(l, None) else None
+            if k is None:
+                return False, f"unexpected operand of the maximum: {str(l)[:120]}", n
+            covered.add(k)
+        if covered != set(present):
+            return False, f"with {len(present)} element(s) the result covers {len(covered)} of them (result {r.long(repr(r.result))[:120]})", n
+        if (need_base and not present and not got_base) or (not need_base and not got_base):
+            return False, f"the base value is not part of the result for {len(present)} element(s)", n
+        if re.search(r'\bmin\b', repr(I_x(r.result))):
+            return False, "uses min", n
+        lens.add(len(present))
+        n += 1
+    if not {0, 1, 2} <= lens:
+        raise CheckError(f"R02.4 {body.path}: form not recognised (collection lengths seen: {sorted(lens)})")
+    return True, '', n
+
+
+def I_x(v):
+    """structured expression of a row result"""
+    if isinstance(v, Const):
+        return ('const', v.v)
+    if isinstance(v, Sym):
+        return v.x
+    if isinstance(v, Agg):
+        return ('agg', v.adt, v.variant, tuple(I_x(y) for y in v.fields))
+    return ('unknown',)
 
 
 def op_str_all(b):
